@@ -302,6 +302,36 @@ fn split_annotations(f: &CompiledFunction, info: &FnInfo) -> Result<Vec<Option<u
     Ok(ann)
 }
 
+/// Static tail-position scan of one function: a `Call` whose continuation is only
+/// `Slide`s and `Jump`s leading to `Return` does nothing with its result but return it, i.e. it is
+/// in tail position and the compiler is expected to have emitted `TailCall` (compiler.rs:317
+/// emit_call).  Returns (calls in tail position emitted as TailCall, pcs of plain `Call`s in tail
+/// position).
+fn tail_position_scan(f: &CompiledFunction) -> (usize, Vec<usize>) {
+    let code = &f.instructions;
+    let returns_directly = |mut q: usize| -> bool {
+        for _ in 0..code.len() + 1 {
+            match code.get(q) {
+                Some(Instruction::Slide(_)) => q += 1,
+                Some(Instruction::Jump(t)) => q = *t as usize,
+                Some(Instruction::Return) => return true,
+                _ => return false,
+            }
+        }
+        false
+    };
+    let mut ok = 0;
+    let mut bad = vec![];
+    for (pc, i) in code.iter().enumerate() {
+        match i {
+            Instruction::TailCall(_) => ok += 1,
+            Instruction::Call(_) if returns_directly(pc + 1) => bad.push(pc),
+            _ => {}
+        }
+    }
+    (ok, bad)
+}
+
 struct Dump<'a> {
     model_in: &'a mut dyn Write,
     impl_out: &'a mut dyn Write,
@@ -313,6 +343,9 @@ struct Dump<'a> {
     distinct: HashSet<u64>,
     annot_failures: Vec<String>,
     samples: Vec<String>,
+    tail_calls: u64,
+    /// `Call` in tail position: (function id, pc)
+    nontail_in_tail_position: Vec<String>,
 }
 
 impl<'a> Dump<'a> {
@@ -330,6 +363,11 @@ impl<'a> Dump<'a> {
         writeln!(self.impl_out, "fn {} ok", id).unwrap();
         writeln!(self.cases, "fn {} ({}) args={} max_stack_size={} : {}", id, f.id, f.args, f.max_stack_size, body).unwrap();
         self.n_fns += 1;
+        let (tc, bad) = tail_position_scan(f);
+        self.tail_calls += tc as u64;
+        for pc in bad {
+            self.nontail_in_tail_position.push(format!("{}@{} ({:?})", id, pc, f.instructions[pc]));
+        }
         self.n_instrs += f.instructions.len() as u64;
         self.n_splits += f.instructions.iter().filter(|i| matches!(i, Instruction::Split)).count() as u64;
         self.hist.add(&format!("fn-origin:{}", origin));
@@ -502,6 +540,156 @@ fn prog(family: &'static str, n: i64, c: i64) -> Prog {
         _ => unreachable!(),
     };
     Prog { family, src, expected, tail, n }
+}
+
+/// Every syntactic tail position of the language, each as a loop whose ONLY recursive call sits in
+/// that position: if the compiler emits `Call` instead of `TailCall` for it, one frame per
+/// iteration stays on the value stack and the loop overflows any small stack limit.
+/// Boolean loops are wrapped so that every program returns an Int with a closed form.
+const TAIL_SHAPES: &[&str] = &[
+    "or-rhs",
+    "or-rhs-mutual",
+    "and-rhs",
+    "and-rhs-mutual",
+    "or-and-nested",
+    "if-then",
+    "if-else-chain",
+    "if-both-branches",
+    "match-constructor-alt",
+    "match-literal-alts",
+    "match-nested",
+    "match-nested-literal-in-constructor",
+    "let-body",
+    "rec-let-body",
+    "record-pattern-let-body",
+    "block-last-expression",
+    "closure-with-upvalues",
+    "lambda-body",
+    "partial-application-tail",
+    "over-application-tail",
+    "mutual-2",
+    "mutual-3",
+    "or-inside-match-alt",
+    "and-inside-if-inside-or",
+    "match-inside-or-rhs",
+    "or-inside-let-body-in-closure",
+];
+
+fn tail_shape(shape: &'static str, n: i64, c: i64) -> Prog {
+    const T: &str = "type T = | A | B Int\n";
+    let (src, expected): (String, i64) = match shape {
+        // the seeded-change demo shape: the recursive call is the right operand of `||`
+        "or-rhs" => (
+            format!("rec let reaches i n = i #Int== n || reaches (i #Int+ 1) n\nif reaches 0 {n} then {c} else 0"),
+            c,
+        ),
+        "or-rhs-mutual" => (
+            format!("rec\nlet ping i n = i #Int== n || pong (i #Int+ 1) n\nlet pong i n = i #Int== n || ping (i #Int+ 1) n\nif ping 0 {n} then {c} else 0"),
+            c,
+        ),
+        "and-rhs" => (
+            format!("rec let down i = 0 #Int< i && down (i #Int- 1)\nif down {n} then 0 else {c}"),
+            c,
+        ),
+        "and-rhs-mutual" => (
+            format!("rec\nlet da i = 0 #Int< i && db (i #Int- 1)\nlet db i = 0 #Int< i && da (i #Int- 1)\nif da {n} then 0 else {c}"),
+            c,
+        ),
+        "or-and-nested" => (
+            format!("rec let g i n = i #Int== n || (i #Int< n && g (i #Int+ 1) n)\nif g 0 {n} then {c} else 0"),
+            c,
+        ),
+        "if-then" => (
+            format!("rec let f n acc = if 0 #Int< n then f (n #Int- 1) (acc #Int+ {c}) else acc\nf {n} 0"),
+            n * c,
+        ),
+        "if-else-chain" => (
+            format!("rec let f n acc = if n #Int== 0 then acc else if n #Int< 0 then 0 else f (n #Int- 1) (acc #Int+ {c})\nf {n} 0"),
+            n * c,
+        ),
+        // the call is in tail position of BOTH branches (odd and even steps take different ones)
+        "if-both-branches" => (
+            format!("rec let f n p acc = if n #Int== 0 then acc else if p #Int== 0 then f (n #Int- 1) 1 (acc #Int+ {c}) else f (n #Int- 1) 0 (acc #Int+ {c})\nf {n} 0 0"),
+            n * c,
+        ),
+        "match-constructor-alt" => (
+            format!("{T}rec let f t acc =\n    match t with\n    | A -> acc\n    | B k -> f (if k #Int== 0 then A else B (k #Int- 1)) (acc #Int+ {c})\nf (B {n}) 0"),
+            (n + 1) * c,
+        ),
+        "match-literal-alts" => (
+            format!("rec let f n acc =\n    match n with\n    | 0 -> acc\n    | 1 -> f 0 (acc #Int+ {c})\n    | m -> f (m #Int- 1) (acc #Int+ {c})\nf {n} 0"),
+            n * c,
+        ),
+        "match-nested" => (
+            format!("{T}rec let f t u acc =\n    match t with\n    | A -> acc\n    | B k ->\n        match u with\n        | A -> f (if k #Int== 0 then A else B (k #Int- 1)) (B 0) (acc #Int+ {c})\n        | B _ -> f (if k #Int== 0 then A else B (k #Int- 1)) A (acc #Int+ {c})\nf (B {n}) A 0"),
+            (n + 1) * c,
+        ),
+        "match-nested-literal-in-constructor" => (
+            format!("{T}rec let f t acc =\n    match t with\n    | A -> acc\n    | B k ->\n        match k with\n        | 0 -> f A (acc #Int+ {c})\n        | m -> f (B (m #Int- 1)) (acc #Int+ {c})\nf (B {n}) 0"),
+            (n + 1) * c,
+        ),
+        "let-body" => (
+            format!("rec let f n acc =\n    let m = n #Int- 1\n    let a = acc #Int+ {c}\n    if n #Int== 0 then acc else f m a\nf {n} 0"),
+            n * c,
+        ),
+        "rec-let-body" => (
+            format!("rec let f n acc =\n    rec let g x = if x #Int< 0 then g 0 else x #Int+ {c}\n    if n #Int== 0 then acc else f (n #Int- 1) (g acc)\nf {n} 0"),
+            n * c,
+        ),
+        "record-pattern-let-body" => (
+            format!("rec let f r =\n    let {{ n, acc }} = r\n    if n #Int== 0 then acc else f {{ n = n #Int- 1, acc = acc #Int+ {c} }}\nf {{ n = {n}, acc = 0 }}"),
+            n * c,
+        ),
+        // a block: a unit-valued statement, then the tail call as the last expression (the plain
+        // `e1 <newline> e2` form desugars to flat_map, which needs the prelude)
+        "block-last-expression" => (
+            format!("let ignore x = ()\nrec let f n acc =\n    let _ = ignore n\n    if n #Int== 0 then acc else f (n #Int- 1) (acc #Int+ {c})\nf {n} 0"),
+            n * c,
+        ),
+        "closure-with-upvalues" => (
+            format!("let step = {c}\nrec let f n acc =\n    let k = \\a -> f (n #Int- 1) (a #Int+ step)\n    if n #Int== 0 then acc else k acc\nf {n} 0"),
+            n * c,
+        ),
+        "lambda-body" => (
+            format!("rec let f n acc = (\\m a -> if m #Int== 0 then a else f (m #Int- 1) (a #Int+ {c})) n acc\nf {n} 0"),
+            n * c,
+        ),
+        "partial-application-tail" => (
+            format!("rec let f n acc = if n #Int== 0 then acc else (let g = f (n #Int- 1) in g (acc #Int+ {c}))\nf {n} 0"),
+            n * c,
+        ),
+        // f takes ONE argument and returns a function: the recursive call passes two (excess argument)
+        "over-application-tail" => (
+            format!("rec let f n = \\acc -> if n #Int== 0 then acc else f (n #Int- 1) (acc #Int+ {c})\nf {n} 0"),
+            n * c,
+        ),
+        "mutual-2" => (
+            format!("rec\nlet a n acc = if n #Int== 0 then acc else b (n #Int- 1) (acc #Int+ {c})\nlet b n acc = if n #Int== 0 then acc else a (n #Int- 1) (acc #Int+ {c})\na {n} 0"),
+            n * c,
+        ),
+        "mutual-3" => (
+            format!("rec\nlet a n acc = if n #Int== 0 then acc else b (n #Int- 1) (acc #Int+ {c})\nlet b n acc = if n #Int== 0 then acc else d (n #Int- 1) (acc #Int+ {c})\nlet d n acc = if n #Int== 0 then acc else a (n #Int- 1) (acc #Int+ {c})\na {n} 0"),
+            n * c,
+        ),
+        "or-inside-match-alt" => (
+            format!("{T}rec let f t i n =\n    match t with\n    | A -> i #Int== n || f A (i #Int+ 1) n\n    | B _ -> 1 #Int== 0\nif f A 0 {n} then {c} else 0"),
+            c,
+        ),
+        "and-inside-if-inside-or" => (
+            format!("rec let g i n = i #Int== n || (if i #Int< 0 then 1 #Int== 0 else 0 #Int< n && g (i #Int+ 1) n)\nif g 0 {n} then {c} else 0"),
+            c,
+        ),
+        "match-inside-or-rhs" => (
+            format!("{T}rec let f t i n =\n    i #Int== n || (match t with\n        | A -> f (B 0) (i #Int+ 1) n\n        | B _ -> f A (i #Int+ 1) n)\nif f A 0 {n} then {c} else 0"),
+            c,
+        ),
+        "or-inside-let-body-in-closure" => (
+            format!("rec let f i n =\n    let k = \\j ->\n        let m = j #Int+ 1\n        j #Int== n || f m n\n    k i\nif f 0 {n} then {c} else 0"),
+            c,
+        ),
+        _ => unreachable!(),
+    };
+    Prog { family: shape, src, expected, tail: true, n }
 }
 
 const FAMILIES: &[&str] = &[
@@ -958,6 +1146,8 @@ fn real_main(args: Args) {
         distinct: HashSet::new(),
         annot_failures: vec![],
         samples: vec![],
+        tail_calls: 0,
+        nontail_in_tail_position: vec![],
     };
     let mut skipped: Vec<String> = vec![];
     let mut compiled_std = 0;
@@ -982,6 +1172,10 @@ fn real_main(args: Args) {
             let p = prog(fam, n, 1 + rng.below(5) as i64);
             gen_progs.push((format!("gen.{}.{}", fam, n), p.src));
         }
+    }
+    for sh in TAIL_SHAPES {
+        let p = tail_shape(sh, 3, 1 + rng.below(5) as i64);
+        gen_progs.push((format!("gen.tailshape.{}", sh), p.src));
     }
     let extras: &[(&str, &str)] = &[
         ("rec-records", "rec\nlet a = { x = 1, other = \\u -> b.y }\nlet b = { y = 2, other = \\u -> a.x }\nin\na.x"),
@@ -1012,6 +1206,8 @@ fn real_main(args: Args) {
     let distinct_fns = dump.distinct.len() as u64;
     let annot_failures = std::mem::take(&mut dump.annot_failures);
     let fn_samples = std::mem::take(&mut dump.samples);
+    let static_tail_calls = dump.tail_calls;
+    let nontail_in_tail_position = std::mem::take(&mut dump.nontail_in_tail_position);
     drop(dump);
     let t_v = t_start.elapsed();
 
@@ -1057,7 +1253,7 @@ fn real_main(args: Args) {
             if let Ok(text) = std::fs::read_to_string(&f) {
                 if let Ok(v) = serde_json::from_str::<serde_json::Value>(&text) {
                     let p = Prog {
-                        family: "corpus",
+                        family: Box::leak(format!("corpus-{}", f.file_stem().map(|x| x.to_string_lossy().to_string()).unwrap_or_default()).into_boxed_str()),
                         src: v["source"].as_str().unwrap_or("0").to_string(),
                         expected: v["expected"].as_i64().unwrap_or(0),
                         tail: v["tail"].as_bool().unwrap_or(false),
@@ -1108,6 +1304,26 @@ fn real_main(args: Args) {
                 renew(&mut vm, &mut since_new);
             }
         }
+    }
+    // C1b: every syntactic tail position: small runs for the value, then >= 10^5 iterations under
+    // small stack limits (one leaked frame per iteration would need >= 2 * 10^5 slots)
+    let mut tail_shape_runs = vec![];
+    let shape_iters: i64 = if thorough { 1_000_000 } else { 200_000 };
+    for sh in TAIL_SHAPES {
+        for n in [0i64, 1, 2, 7, 50] {
+            let p = tail_shape(sh, n, 1 + rng.below(4) as i64);
+            obs.check(&vm, &p, None, None, hdr, true);
+            obs.check(&vm, &p, Some(1000), None, hdr, true);
+            renew(&mut vm, &mut since_new);
+        }
+        for &s in &[64u32, 1000] {
+            let p = tail_shape(sh, shape_iters, 3);
+            let t0 = Instant::now();
+            let o = obs.check(&vm, &p, Some(s), None, hdr, true);
+            tail_shape_runs.push(serde_json::json!({"shape": sh, "iterations": shape_iters, "stack_limit": s, "outcome": format!("{:?}", o), "ms": t0.elapsed().as_millis() as u64}));
+        }
+        vm = new_vm();
+        since_new = 0;
     }
     // C2: constant stack: 10^6 iterations under a 64-slot limit (and under the smallest limit that
     // was enough for a short run: the need must not depend on the iteration count)
@@ -1271,6 +1487,9 @@ fn real_main(args: Args) {
             "std_modules_skipped": skipped,
             "generated_compile_errors": gen_compile_errors,
             "annotation_failures": annot_failures,
+            "static_tail_calls": static_tail_calls,
+            "static_call_in_tail_position": nontail_in_tail_position,
+            "tail_shape_runs": tail_shape_runs,
             "fn_samples": fn_samples,
             "acct_sequences": n_acct,
             "acct_ops": acct_ops,
